@@ -140,6 +140,16 @@ func (t *connectTransaction) WillTopic(snWillTopic *snPkts1.WillTopic) error {
 		return nil
 	}
 
+	// MQTT does not allow a will with an empty topic or with QoS 0b11.
+	if snWillTopic.WillTopic == "" || snWillTopic.QOS > 2 {
+		if err := t.SendConnack(snPkts1.RC_NOT_SUPPORTED); err != nil {
+			return err
+		}
+		err := fmt.Errorf("invalid will topic or QoS: %v", snWillTopic)
+		t.Fail(err)
+		return err
+	}
+
 	t.mqConnect.WillQos = snWillTopic.QOS
 	t.mqConnect.WillRetain = snWillTopic.Retain
 	t.mqConnect.WillTopic = snWillTopic.WillTopic
